@@ -1568,3 +1568,153 @@ func checkNoStoreBeforeRefusal(c *core.Ctx, st *core.RuleStat, rule string, pi *
 		}
 	}
 }
+
+// checkBuilderPassThrough: what a caller configures on a builder is what the component gets. In
+// the Build method of the package's Builder (its same-package helpers included) every store to a
+// component field that is filled from a builder field anywhere in Build stores exactly that
+// builder field (conversions allowed), on every path: no second store adjusts it (a clamp, a
+// default), and the pairs confirmed by hand (`required`: component field -> builder field) are
+// all present - a constructor default does not stand in for the configured value. The component
+// enforces the value it holds; the rule makes that the value the configuration names.
+func checkBuilderPassThrough(c *core.Ctx, rule, why string, pi *PkgInfo, required map[string]string) {
+	st := c.Rule(rule, "the component is built with the configured values: in Builder.Build (same-package helpers included) a component field that is filled from a builder field is stored only from that builder field (conversions allowed) - no later store clamps, defaults or recomputes it - and every hand-confirmed pair (component field <- builder field) is present. "+why, len(required))
+	prov := core.NewLocalProv(c)
+	var builds []*ssa.Function
+	for _, fn := range pi.Funcs {
+		if fn.Name() == "Build" && fn.Signature.Recv() != nil && strings.HasSuffix(strings.TrimPrefix(fn.Signature.Recv().Type().String(), "*"), ".Builder") {
+			builds = append(builds, fn)
+		}
+	}
+	if len(builds) == 0 {
+		c.Report(core.Finding{Rule: rule, Kind: "anchor", Pkg: pi.Rel, Func: "Builder.Build", Detail: "anchor", Msg: "Builder.Build not found"})
+		return
+	}
+	type storeInfo struct {
+		fn   *ssa.Function
+		in   *ssa.Store
+		from string // builder field, "" when the value is something else
+		val  string
+	}
+	stores := map[string][]storeInfo{}
+	seen := map[*ssa.Function]bool{}
+	var visit func(fn *ssa.Function, d int)
+	visit = func(fn *ssa.Function, d int) {
+		if seen[fn] || d > 1 {
+			return
+		}
+		seen[fn] = true
+		c.MarkAnalysed(fn)
+		for _, b := range fn.Blocks {
+			for _, in := range b.Instrs {
+				if s, ok := in.(*ssa.Store); ok {
+					if f := core.FieldOfAddr(s.Addr); f != nil {
+						pv := prov.Of(core.StripConv(s.Val))
+						from := ""
+						if m := regexp.MustCompile(`^recv\.(\w+)$`).FindStringSubmatch(pv); m != nil && fn.Signature.Recv() != nil {
+							from = m[1]
+						}
+						id := core.ShortFieldID(f)
+						stores[id] = append(stores[id], storeInfo{fn, s, from, pv})
+					}
+				}
+				if cc := core.CallOf(in); cc != nil {
+					if cal := cc.StaticCallee(); cal != nil && cal.Pkg == fn.Pkg && len(cal.Blocks) > 0 && cal.Signature.Recv() != nil && strings.HasSuffix(strings.TrimPrefix(cal.Signature.Recv().Type().String(), "*"), ".Builder") {
+						visit(cc.StaticCallee(), d+1)
+					}
+				}
+			}
+		}
+	}
+	for _, b := range builds {
+		visit(b, 0)
+	}
+	var ids []string
+	for id := range stores {
+		ids = append(ids, id)
+	}
+	sort.Strings(ids)
+	for _, id := range ids {
+		// the builder field the component field stands for: the hand-confirmed one, else the
+		// first one stored
+		src := required[id]
+		for _, s := range stores[id] {
+			if s.from != "" && src == "" {
+				src = s.from
+			}
+		}
+		if src == "" {
+			continue
+		}
+		st.Instances++
+		ok := true
+		for _, s := range stores[id] {
+			// a store of something else that can follow the pass-through store on a path (the
+			// other arm of an if that builds a default when nothing was configured cannot)
+			follows := false
+			for _, p := range stores[id] {
+				if p.from == src && p.fn == s.fn && instrReaches(p.in, s.in) {
+					follows = true
+				}
+			}
+			if s.from != src && follows {
+				ok = false
+				c.ReportAt(rule, s.fn, s.in.Pos(), "configured-value-altered:"+id, fmt.Sprintf("%s is filled from the builder's %s and then stored again as %s: the component enforces a value the caller did not configure. %s", id, src, short(s.val), why))
+			}
+		}
+		st.Ob(ok)
+		st.Sample("%s <- Builder.%s, %d store(s), all pass-through: %v", id, src, len(stores[id]), ok)
+	}
+	var req []string
+	for f := range required {
+		req = append(req, f)
+	}
+	sort.Strings(req)
+	for _, f := range req {
+		st.Instances++
+		ok := false
+		for _, s := range stores[f] {
+			if s.from == required[f] {
+				ok = true
+			}
+		}
+		st.Ob(ok)
+		if !ok {
+			c.ReportAt(rule, builds[0], builds[0].Pos(), "configured-value-not-passed:"+f, fmt.Sprintf("Build no longer stores the builder's %s into %s: the component runs with whatever its constructor left there, whatever the caller configured. %s", required[f], f, why))
+		}
+	}
+}
+
+// instrReaches: b can execute after a in the same function.
+func instrReaches(a, b ssa.Instruction) bool {
+	if a.Block() == b.Block() {
+		ia, ib := -1, -1
+		for i, in := range a.Block().Instrs {
+			if in == a {
+				ia = i
+			}
+			if in == b {
+				ib = i
+			}
+		}
+		if ia < ib {
+			return true
+		}
+	}
+	seen := map[*ssa.BasicBlock]bool{}
+	var walk func(x *ssa.BasicBlock) bool
+	walk = func(x *ssa.BasicBlock) bool {
+		for _, sc := range x.Succs {
+			if sc == b.Block() {
+				return true
+			}
+			if !seen[sc] {
+				seen[sc] = true
+				if walk(sc) {
+					return true
+				}
+			}
+		}
+		return false
+	}
+	return walk(a.Block())
+}
